@@ -95,17 +95,27 @@ fn handle_summary(state: &AppState) -> String {
 /// Checksum: [64-character SHA-256 hex]\r\n
 /// ```
 fn wrap_in_mime(bpsv_content: &str) -> String {
+    // The boundary must not occur inside the part it delimits (RFC 2046
+    // section 5.1.1), otherwise MIME parsers cut the body there
+    let mut boundary = String::from("RibbitBoundary");
+    while bpsv_content.contains(boundary.as_str()) {
+        boundary.push('_');
+    }
+
+    let content_type = format!("Content-Type: multipart/alternative; boundary=\"{boundary}\"\r\n");
+    let opening = format!("--{boundary}\r\n");
+    let closing = format!("--{boundary}--\r\n");
     let mime_parts = [
         "MIME-Version: 1.0\r\n",
-        "Content-Type: multipart/alternative; boundary=\"RibbitBoundary\"\r\n",
+        content_type.as_str(),
         "\r\n",
-        "--RibbitBoundary\r\n",
+        opening.as_str(),
         "Content-Type: text/plain\r\n",
         "Content-Disposition: data\r\n",
         "\r\n",
         bpsv_content,
         "\r\n",
-        "--RibbitBoundary--\r\n",
+        closing.as_str(),
     ];
 
     // Calculate SHA-256 checksum of everything before "Checksum:" line
